@@ -1,10 +1,11 @@
 (* C18 — reload: parsing the file persist() writes.
-   reload_equiv : for keys free of '#' and whitespace, the reloaded list blocks
-                  exactly the names the persisted memory blocks (any order of
-                  the lines, redundant entries included);
-   reload_exact : the reloaded maps equal the memory's — refuted in general
-                  ('#', whitespace, redundant entries), proved for clean and
-                  irredundant lists. *)
+   reload_equiv : the reloaded list blocks exactly the names the persisted memory
+                  blocks (any order of the lines, redundant entries included); the
+                  hypotheses are invariants of the running list since setLocked
+                  refuses keys with '#' or white space (commit 329a134);
+   reload_exact : the reloaded maps equal the memory's — still refuted for
+                  redundant entries (the Exists pre-check of parseHostFile drops
+                  them depending on line order), proved for irredundant lists. *)
 From Coq Require Import Permutation.
 From Sdns Require Import Common.Base Gen.C18 C18.Model C18.Spec C18.Proofs_match.
 Open Scope N_scope.
@@ -115,6 +116,7 @@ Definition no_star (e : str) : Prop := has_prefix [42; 46] e = false.
 (* invariants of every reachable memory (reachable_good below), the whitelist being fixed *)
 Definition good_entry (w : list str) (en : entry) : Prop :=
   canonical (line_of en) = line_of en /\ hier (line_of en) w = false /\
+  persistable (line_of en) = true /\
   match en with EPlain e => no_star e | EWild _ => True end.
 
 Fixpoint plains (l : list entry) : list str :=
@@ -167,12 +169,20 @@ Proof.
 Qed.
 
 (* the walk is transitive: a suffix of a suffix is a suffix *)
-Lemma dot_suffixes_trans s c : In s (dot_suffixes c) -> incl (dot_suffixes s) (dot_suffixes c).
+Lemma dot_suffixes_trans_len n : forall s c, (length c <= n)%nat ->
+  In s (dot_suffixes c) -> incl (dot_suffixes s) (dot_suffixes c).
 Proof.
-  induction c as [|x c IH]; cbn; [easy|]. destruct (x =? c_dot).
-  - intros [<-|H]; [apply incl_tl, incl_refl|]. apply incl_tl. now apply IH.
-  - exact IH.
+  induction n as [|n IH]; intros s c Hl Hin.
+  - destruct c; [destruct Hin|cbn in Hl; lia].
+  - destruct c as [|x c]; [destruct Hin|]. cbn [dot_suffixes] in *. cbn in Hl.
+    destruct (x =? c_bs).
+    + destruct c as [|y c']; [destruct Hin|]. apply IH; [cbn in Hl; lia|exact Hin].
+    + destruct (x =? c_dot).
+      * destruct Hin as [<-|H]; [apply incl_tl, incl_refl|]. apply incl_tl. apply IH; [lia|exact H].
+      * apply IH; [lia|exact Hin].
 Qed.
+Lemma dot_suffixes_trans s c : In s (dot_suffixes c) -> incl (dot_suffixes s) (dot_suffixes c).
+Proof. apply (dot_suffixes_trans_len (length c)). apply le_n. Qed.
 Lemma cands_trans s c : In s (cands c) -> incl (cands s) (cands c).
 Proof.
   unfold cands. intros H t Ht. apply filter_In in H as [H _]. apply filter_In in Ht as [Ht Hn].
@@ -220,7 +230,7 @@ Lemma set_locked_good w en b : good_entry w en -> bw b = w ->
   | EWild s => mk_bl (bm b) (add s (bwild b)) w
   end.
 Proof.
-  intros (Hcan & Hw & Hs) <-. unfold set_locked. rewrite Hcan, match_hierarchy_alt, Hw.
+  intros (Hcan & Hw & Hp & Hs) <-. unfold set_locked. rewrite Hcan, match_hierarchy_alt, Hw, Hp. cbn [negb].
   destruct en as [e|s]; cbn [line_of] in *.
   - change set_wildp with [42; 46]. unfold no_star in Hs. rewrite Hs. reflexivity.
   - reflexivity.
@@ -236,11 +246,11 @@ Proof.
   intros Hg Hw Hns. cbn zeta. unfold step_key.
   destruct (bl_exists b (line_of en)) eqn:E.
   - repeat split; try assumption; [now left|].
-    intros [H|H]; [exact H|]. rewrite bl_exists_alt in E. destruct Hg as (Hcan & _ & _). rewrite Hcan in E.
+    intros [H|H]; [exact H|]. rewrite bl_exists_alt in E. destruct Hg as (Hcan & _ & _ & _). rewrite Hcan in E.
     apply andb_true_iff in E as [_ E]. now apply (covered_when_line_blocked b en c).
   - rewrite (set_locked_good w en b Hg Hw). destruct en as [e|s]; cbn [bw bm].
     + split; [reflexivity|]. split.
-      * intros x Hx. apply In_add in Hx as [Hx| ->]; [now apply Hns|]. now destruct Hg as (_ & _ & Hs).
+      * intros x Hx. apply In_add in Hx as [Hx| ->]; [now apply Hns|]. now destruct Hg as (_ & _ & _ & Hs).
       * intros c. rewrite !blocked_walk_iff. cbn [bm bwild covers]. split.
         -- intros [(x & Hx & H)|H]; [|left; now right]. apply In_add in Hx as [Hx| ->]; [left; left; now exists x|now right].
         -- intros [[(x & Hx & H)|H]|H]; [left; exists x; split; [apply In_add; now left|exact H]|now right|].
@@ -297,12 +307,31 @@ Qed.
 Lemma good_canonical w l : Forall (good_entry w) l -> Forall (fun en => canonical (line_of en) = line_of en) l.
 Proof. intros H. eapply Forall_impl; [|exact H]. now intros en (A & _). Qed.
 
+(* a canonical, persistable line is clean in the parser's sense *)
+Lemma canonical_nonempty k : canonical k <> [].
+Proof.
+  unfold canonical, fqdn. destruct (is_fqdn k) eqn:E.
+  - destruct k; [discriminate|discriminate].
+  - destruct k; discriminate.
+Qed.
+Lemma persistable_clean l : l <> [] -> persistable l = true -> clean_line l.
+Proof.
+  intros Hne H. split; [exact Hne|]. unfold persistable in H. rewrite forallb_forall in H.
+  apply Forall_forall. intros c Hc. specialize (H c Hc). apply andb_true_iff in H as [A B].
+  change persist_comment_char with 35 in A. apply negb_true_iff in A, B. apply N.eqb_neq in A. split; assumption.
+Qed.
+Lemma good_clean w l : Forall (good_entry w) l -> Forall clean_entry l.
+Proof.
+  intros H. eapply Forall_impl; [|exact H]. intros en (A & _ & P & _). unfold clean_entry.
+  apply persistable_clean; [|exact P]. rewrite <- A. apply canonical_nonempty.
+Qed.
+
 (* reload_equiv *)
 Lemma reload_equiv_lemma w v ex wi :
-  Forall (good_entry w) (entries_of ex wi) -> Forall clean_entry (entries_of ex wi) ->
+  Forall (good_entry w) (entries_of ex wi) ->
   forall q, bl_exists (parse_bytes (snap_bytes (mk_snap v ex wi)) (mk_bl [] [] w)) q = bl_exists (mk_bl ex wi w) q.
 Proof.
-  intros Hg Hc q. rewrite (parse_snapshot v ex wi _ Hc (good_canonical w _ Hg)).
+  intros Hg q. pose proof (good_clean w _ Hg) as Hc. rewrite (parse_snapshot v ex wi _ Hc (good_canonical w _ Hg)).
   destruct (fold_equiv w (entries_of ex wi) (mk_bl [] [] w) Hg eq_refl) as (Hw & Hb); [intros e []|].
   cbn zeta in *. rewrite !bl_exists_alt, Hw. cbn [bw]. f_equal.
   set (c := canonical q). apply eq_true_iff_eq. rewrite Hb.
@@ -321,22 +350,22 @@ Proof. reflexivity. Qed.
 (* ---------------------------------------------------------------- reload_exact: refuted, and the part that holds *)
 
 (* Full statement: for every memory (ex, wi) the reloaded maps are ex and wi.
-   Refuted three ways on keys the API accepts. *)
+   The '#' / white space part is repaired (such keys are refused now); redundant
+   entries still make it fail, in a way that depends on the order of the lines. *)
 Definition k_hash : str := [97; 35; 98; 46; 116; 101; 115; 116; 46].                 (* a#b.test. *)
 Definition k_space : str := [97; 32; 98; 46; 116; 101; 115; 116; 46].                (* a b.test. *)
 Definition k_ex : str := [101; 120; 46; 116; 101; 115; 116; 46].                     (* ex.test.  *)
 Definition k_sub : str := [115; 117; 98; 46] ++ k_ex.                                (* sub.ex.test. *)
 Definition reload (ex wi : list str) : bl := parse_bytes (snap_bytes (mk_snap 1 ex wi)) (mk_bl [] [] []).
 
+Lemma special_keys_refused :
+  set_locked k_hash (mk_bl [] [] []) = (false, mk_bl [] [] []) /\
+  set_locked k_space (mk_bl [] [] []) = (false, mk_bl [] [] []) /\
+  fst (apply_op (OpSetBatch [k_hash; k_ex; k_space]) (mk_bl [] [] [])) = (1, true).
+Proof. vm_compute. repeat split; reflexivity. Qed.
+
 Lemma reload_exact_refuted_lemma :
-  (* the API stores the key as given ... *)
-  bm (snd (set_locked k_hash (mk_bl [] [] []))) = [k_hash] /\
-  bm (snd (set_locked k_space (mk_bl [] [] []))) = [k_space] /\
-  (* ... and the restart reads something else, which blocks other names *)
-  bm (reload [k_hash] []) = [[97; 46]] /\
-  bl_exists (reload [k_hash] []) [120; 46; 97; 46] = true /\ bl_exists (mk_bl [k_hash] [] []) [120; 46; 97; 46] = false /\
-  bm (reload [k_space] []) = [[98; 46; 116; 101; 115; 116; 46]] /\
-  (* redundant entries: dropped or kept depending on the order the map iteration wrote them *)
+  bm (snd (apply_op (OpSetBatch [k_ex; k_sub]) (mk_bl [] [] []))) = [k_ex; k_sub] /\
   bm (reload [k_ex; k_sub] []) = [k_ex] /\ bm (reload [k_sub; k_ex] []) = [k_sub; k_ex].
 Proof. vm_compute. repeat split; reflexivity. Qed.
 
@@ -378,11 +407,11 @@ Proof.
 Qed.
 
 Lemma reload_exact_partial_lemma w v ex wi :
-  Forall (good_entry w) (entries_of ex wi) -> Forall clean_entry (entries_of ex wi) ->
+  Forall (good_entry w) (entries_of ex wi) ->
   irredundant (entries_of ex wi) ->
   parse_bytes (snap_bytes (mk_snap v ex wi)) (mk_bl [] [] w) = mk_bl ex wi w.
 Proof.
-  intros Hg Hc Hi. rewrite (parse_snapshot v ex wi _ Hc (good_canonical w _ Hg)).
+  intros Hg Hi. pose proof (good_clean w _ Hg) as Hc. rewrite (parse_snapshot v ex wi _ Hc (good_canonical w _ Hg)).
   pose proof (fold_exact w (entries_of ex wi) [] Hg Hi) as H. cbn [app plains wilds] in H. rewrite H.
   now rewrite plains_entries, wilds_entries.
 Qed.
@@ -462,13 +491,14 @@ Qed.
 Lemma set_locked_keeps_good k b : sane k -> mem_good b -> mem_good (snd (set_locked k b)).
 Proof.
   intros Hs Hg. unfold set_locked. destruct (match_hierarchy (canonical k) (bw b)) eqn:Ew; [exact Hg|].
+  destruct (persistable (canonical k)) eqn:Ep'; [|exact Hg]. cbn [negb].
   rewrite match_hierarchy_alt in Ew. unfold mem_good in *. change set_wildp with [42; 46]. change (N.to_nat set_wild_skip) with 2%nat.
   apply good_entries_iff in Hg as [A B].
   destruct (has_prefix [42; 46] (canonical k)) eqn:Ep; cbn [snd bm bwild bw]; apply good_entries_iff; split; try assumption.
   - intros s Hs'. apply In_add in Hs' as [Hs'| ->]; [now apply B|].
-    unfold good_entry. cbn [line_of]. rewrite (skipn2_wline _ Ep). repeat split; [now apply canonical_idem|exact Ew].
+    unfold good_entry. cbn [line_of]. rewrite (skipn2_wline _ Ep). repeat split; [now apply canonical_idem|exact Ew|exact Ep'].
   - intros e He. apply In_add in He as [He| ->]; [now apply A|].
-    unfold good_entry. cbn [line_of]. repeat split; [now apply canonical_idem|exact Ew|exact Ep].
+    unfold good_entry. cbn [line_of]. repeat split; [now apply canonical_idem|exact Ew|exact Ep'|exact Ep].
 Qed.
 
 Lemma In_del x k l : In x (del k l) -> In x l.
@@ -512,7 +542,8 @@ Qed.
 Lemma apply_op_keeps_w o b : bw (snd (apply_op o b)) = bw b.
 Proof.
   assert (Hs : forall k b, bw (snd (set_locked k b)) = bw b).
-  { intros k b0. unfold set_locked. destruct (match_hierarchy _ _); [reflexivity|]. now destruct (has_prefix _ _). }
+  { intros k b0. unfold set_locked. destruct (match_hierarchy _ _); [reflexivity|].
+    destruct (negb _); [reflexivity|]. now destruct (has_prefix _ _). }
   assert (Hr : forall k b, bw (snd (remove_locked k b)) = bw b).
   { intros k b0. unfold remove_locked. destruct (mem _ (bm b0)); [reflexivity|].
     destruct (has_prefix _ _); [|reflexivity]. now destruct (mem _ (bwild b0)). }
